@@ -6,7 +6,7 @@ ROOTS = ['vf_world_init', 'vf_session_init', 'vf_header_init', 'vf_message_init'
          'vf_sess_set_seq', 'vf_sess_set_state', 'vf_sess_set_active', 'vf_sess_set_req_seq', 'vf_sess_set_ptrs', 'vf_sess_next_send', 'vf_sess_next_recv',
          'vf_sess_state', 'vf_sess_is_shutdown_flag', 'vf_sess_clear_control', 'vf_sess_set_flags', 'vf_sess_set_sid', 'vf_sess_set_sci', 'vf_sess_sid_sender', 'vf_sess_sid_target',
          'vf_sess_set_times', 'vf_sess_last_sent', 'vf_sess_last_received', 'vf_conn_set', 'vf_conn_hb']
-PROVIDED = ['vf_gen', 'vf_rec_send', 'vf_deliver', 'vf_is_admin', 'vf_authenticate', 'vf_msg_deleted']
+PROVIDED = ['vf_gen', 'vf_rec_send', 'vf_deliver', 'vf_is_admin', 'vf_authenticate']
 STUBS = ['Message::factory := abstract message (models/sess_msg.c): yields the harness message, raises a decoding failure (InvalidMessage / InvalidVersion[force_logoff] / MissingMandatoryField / BadCheckSum / std::exception) or returns null',
          'MessageBase::get<T>/have := symbolic header/body attributes of the abstract message (43,52,122,36,7,16,112,108,141,49,56)',
          'VSession::send / generate_* (shim overrides) := record (kind, arguments, custom seqnum, no_increment); message construction and transmission are outside',
@@ -14,7 +14,7 @@ STUBS = ['Message::factory := abstract message (models/sess_msg.c): yields the h
          'std::chrono::system_clock::now := arbitrary non-decreasing instants', 'pthread_spin_* := uncontended; clock_nanosleep := returns at once; Connection::stop := recorded',
          'std::string out-of-line members, operator new, exceptions (typeinfo ancestry): models/cxx.c']
 # loops of the models and of the real code that every harness of this world can reach (bounds: typeinfo table rows, catch clauses, literal/string lengths, digits)
-US = ['vf_copy.0:18', 'vf_ti_match.0:140', '__vf_landing.0:6', 'x_strlen.0:20', 'x_memcmp.0:4', '_ZL4slenPKc.0:4', '_ZN4FIX89fast_atoiIjEET_PKcc.0:10',
+US = ['vf_copy.0:18', 'vf_ti_match.0:140', '__vf_landing.0:6', 'x_strlen.0:64', 'x_memcmp.0:4', '_ZL4slenPKc.0:4', '_ZN4FIX89fast_atoiIjEET_PKcc.0:10',
       'x__ZNKSt7__cxx1112basic_stringIcSt11char_traitsIcESaIcEE4findEPKcmm.0:13', 'x__ZNKSt7__cxx1112basic_stringIcSt11char_traitsIcESaIcEE4findEPKcmm.1:5']
 ASSUME = ['operator new never fails', 'the session has no persister, no loggers and no SessionConfig (_persist, _logger, _plogger, _sf null) unless a harness says otherwise',
           'Session/Connection objects are not constructed (constructors start threads): typed static storage with exactly the members read by the code under test set through compiled setters',
